@@ -43,7 +43,8 @@ def strace_run(ops, scratch, inject, syscall):
         for l in open(tf):
             m = TRACE_RE.match(l)
             if m:
-                LAST_TRACE.append((m.group(1), int(m.group(3)) >= 0))
+                # (a transfer of zero bytes moved nothing: not a successful write or read)
+                LAST_TRACE.append((m.group(1), int(m.group(3)) > 0 if m.group(1) in ("pwrite64", "pread64") else int(m.group(3)) >= 0))
         os.remove(tf)
     except OSError:
         pass
@@ -149,7 +150,8 @@ def fault_injection(ctx, build, stats):
             for sc, idxs in classes.items():
                 for k, i in enumerate(idxs, 1):
                     # (the first call of each class also fails with the errno values a driver may treat as "cannot do that here")
-                    for errno in errnos + (["EINVAL", "EOPNOTSUPP", "EROFS", "EBADF"] if k == 1 else []):
+                    # … and, for reads and writes, with a transfer of ZERO bytes without any error (RETVAL0): nothing was written or read
+                    for errno in errnos + (["EINVAL", "EOPNOTSUPP", "EROFS", "EBADF"] if k == 1 else []) + (["RETVAL0"] if k <= 2 and sc != "fsync" else []):
                       for persistent in (False, True):
                         if persistent and (k % 3 != 1):
                             continue  # from-the-k-th-call-on failures: every third starting point
@@ -168,6 +170,8 @@ def fault_injection(ctx, build, stats):
                             if ops[ii] == "barrier":
                                 want[ii] = "panic"
                         inj = "%s:error=%s:when=%d%s" % (sc, errno, k, "+" if persistent else "")
+                        if errno == "RETVAL0":
+                            inj = "%s:retval=0:when=%d%s" % (sc, k, "+" if persistent else "")
                         got, rc, err = strace_run(ops, scratch, inj, sc)
                         stats["fault_runs"] += 1
                         stats["fault_classes"]["%s:%s%s" % (sc, errno, "+" if persistent else "")] += 1
